@@ -1008,4 +1008,352 @@ theorem c19h_roundtrip (s : State α) (op : Op α) (v w : String) (rv : Ref) (hv
   · intro b hb
     simp [step, h1.2, apply, List.getElem?_append_left hb]
 
+/-! ### C19: a write through a name is read back — through the variable and through its aliases -/
+
+theorem assoc_getElem {β : Type} (idx : List Nat) (vals : List β) (hn : idx.Nodup) (hl : idx.length = vals.length)
+    (k : Nat) (hk : k < idx.length) : assoc idx vals idx[k] = some (vals[k]'(hl ▸ hk)) := by
+  induction idx generalizing vals k with
+  | nil => simp at hk
+  | cons i idx ih =>
+    cases vals with
+    | nil => simp at hl
+    | cons x xs =>
+      cases k with
+      | zero => simp [assoc]
+      | succ k =>
+        simp only [List.length_cons, Nat.add_lt_add_iff_right] at hk
+        simp only [List.nodup_cons] at hn
+        have hne : ¬ i = idx[k] := fun h => hn.1 (h ▸ List.getElem_mem hk)
+        simp only [List.getElem_cons_succ, assoc, hne, if_false]
+        exact ih xs hn.2 (by simpa using hl) k hk
+
+/-- `v[name] = vals; v[name]` returns `vals` — provided `v`'s index map repeats no row (true of every view NumPy can make)
+and the records have the addressed field (true of every record of a well-formed buffer) -/
+theorem c19h_setName_getName (s : State α) (v name : String) (vals : List α) (rv : Ref) (p : Nat)
+    (hv : find v s.env = some rv) (hn : rv.idx.Nodup) (hp : pos (generic rv.ty.mom name) rv.ty.fields = some p)
+    (hl : vals.length = rv.idx.length) (hrec : ∀ i ∈ rv.idx, p < (rowAt s.heap rv.buf i).length) :
+    (step s (.setName v name vals)).2 = .ok ∧
+      (step (step s (.setName v name vals)).1 (.getName v name)).2 = .vals (vals.map some) := by
+  have hb : bcast rv.idx.length vals = some vals := by simp [bcast, hl]
+  have h1 : step s (.setName v name vals) = (⟨writeCols s.heap rv.buf rv.idx [(p, vals)], s.env⟩, .ok) := by
+    simp [step, eval, withVar, hv, hp, hb, apply]
+  rw [h1]
+  refine ⟨rfl, ?_⟩
+  simp only [step, eval, withVar, hv, hp, col, sees, List.map_map]
+  congr 1
+  apply List.ext_getElem
+  · simp [hl]
+  · intro k h1 h2
+    simp only [List.length_map] at h1 h2
+    simp only [List.getElem_map, Function.comp, writeCols, List.foldl_cons, List.foldl_nil, rowAt_writeCol, if_true]
+    rw [assoc_getElem rv.idx vals hn hl.symm k h1]
+    simp only
+    rw [List.getElem?_set_self (hrec _ (List.getElem_mem h1))]
+
+/-- … and through an alias `w` of `v` the same write is read back at the corresponding positions -/
+theorem c19h_setName_getName_alias (s : State α) (v w name : String) (idx : List Nat) (vals : List α) (rv : Ref) (p : Nat)
+    (hal : Aliased s v w idx) (hv : find v s.env = some rv) (hn : rv.idx.Nodup)
+    (hp : pos (generic rv.ty.mom name) rv.ty.fields = some p) (hl : vals.length = rv.idx.length)
+    (hrec : ∀ i ∈ rv.idx, p < (rowAt s.heap rv.buf i).length) :
+    (step (step s (.setName v name vals)).1 (.getName w name)).2 = .vals (pick (vals.map some) idx) :=
+  c19h_alias_getName (c19h_alias_step hal _ (by simp [Op.target]) (by simp [Op.target])) name _
+    (c19h_setName_getName s v name vals rv p hv hn hp hl hrec).2
+
+/-! ### the invariant of reachable states: index maps repeat no row, records have all the fields -/
+
+/-- every variable points into the heap, shows no buffer row twice, and every record it shows has one scalar per field -/
+def Good (s : State α) : Prop := ∀ x r, find x s.env = some r →
+  r.buf < s.heap.length ∧ r.idx.Nodup ∧ ∀ i ∈ r.idx, (rowAt s.heap r.buf i).length = r.ty.fields.length
+
+theorem nodup_pick {l ps : List Nat} (hl : l.Nodup) (hps : ps.Nodup) : (pick l ps).Nodup := by
+  refine List.Pairwise.filterMap (R := (· ≠ ·)) _ ?_ hps
+  intro a a' hne b hb b' hb' hbb
+  subst hbb
+  have ha : a < l.length := by
+    rcases Nat.lt_or_ge a l.length with h | h
+    · exact h
+    · rw [List.getElem?_eq_none h] at hb; cases hb
+  exact hne ((List.getElem?_inj ha hl).mp (hb.trans hb'.symm))
+
+theorem nodup_slicePos {lo hi stp : Option Int} {n : Nat} {ps : List Nat} (h : slicePos lo hi stp n = some ps) :
+    ps.Nodup := by
+  simp only [slicePos] at h
+  split at h
+  · cases h
+  · split at h
+    · cases h; exact List.Nodup.sublist List.filter_sublist List.nodup_range
+    · cases h
+      exact List.pairwise_reverse.mpr (List.Pairwise.imp (fun h => Ne.symm h) (List.Nodup.sublist List.filter_sublist List.nodup_range))
+
+/-- what `eval` answers in a good state, with the facts the invariant needs -/
+inductive GShape (s : State α) : Eff α → Prop
+  | none : GShape s .none
+  | view (w v : String) (rv r : Ref) : find v s.env = some rv → r.buf = rv.buf → r.ty = rv.ty → r.idx.Nodup →
+      (∀ i ∈ r.idx, i ∈ rv.idx) → GShape s (.bindView w r)
+  | fresh (w : String) (ty : VTy) (recs : List (Record α)) : (∀ rec ∈ recs, rec.length = ty.fields.length) →
+      GShape s (.bindFresh w ty recs)
+  | writes (b : Nat) (idx : List Nat) (ws : List (Nat × List α)) : GShape s (.writes b idx ws)
+  | del (v : String) : GShape s (.del v)
+
+theorem good_sees {s : State α} (hg : Good s) {v : String} {rv : Ref} (hv : find v s.env = some rv) :
+    ∀ rec ∈ sees s.heap rv, rec.length = rv.ty.fields.length := by
+  intro rec hrec
+  simp only [sees, List.mem_map] at hrec
+  obtain ⟨i, hi, rfl⟩ := hrec
+  exact (hg v rv hv).2.2 i hi
+
+theorem eval_gshape (s : State α) (hg : Good s) (op : Op α) : GShape s (eval s op).1 := by
+  have hw : ∀ (rt : Ref) tlo thi (rs : Ref) slo shi, GShape s (assignRows s rt tlo thi rs slo shi).1 := by
+    intro rt tlo thi rs slo shi
+    rcases assignRows_shape s rt tlo thi rs slo shi with h | ⟨ws, h⟩ <;> rw [h]
+    · exact .none
+    · exact .writes ..
+  cases op with
+  | new v ty recs =>
+    simp only [eval]
+    split
+    · rename_i h
+      simp only [Bool.and_eq_true, List.all_eq_true, beq_iff_eq] at h
+      exact .fresh v ty recs h.2
+    · exact .none
+  | slice v w lo hi stp =>
+    simp only [eval, withVar]
+    split
+    · exact .none
+    · rename_i r hr
+      split
+      · exact .none
+      · rename_i ps hps
+        exact .view w v r _ hr rfl rfl (nodup_pick (hg v r hr).2.1 (nodup_slicePos hps)) (fun i hi => mem_pick hi)
+  | view v w =>
+    simp only [eval, withVar]
+    split
+    · exact .none
+    · rename_i r hr
+      exact .view w v r r hr rfl rfl (hg v r hr).2.1 (fun i hi => hi)
+  | mask v w bits =>
+    simp only [eval, withVar]
+    split
+    · exact .none
+    · rename_i r hr
+      split
+      · exact .fresh w _ _ (fun rec hrec => good_sees hg hr rec (mem_pick hrec))
+      · exact .none
+  | fancy v w idxs =>
+    simp only [eval, withVar]
+    split
+    · exact .none
+    · rename_i r hr
+      split
+      · exact .none
+      · exact .fresh w _ _ (fun rec hrec => good_sees hg hr rec (mem_pick hrec))
+  | copy v w =>
+    simp only [eval, withVar]
+    split
+    · exact .none
+    · rename_i r hr; exact .fresh w _ _ (good_sees hg hr)
+  | deepcopy v w =>
+    simp only [eval, withVar]
+    split
+    · exact .none
+    · rename_i r hr; exact .fresh w _ _ (good_sees hg hr)
+  | pickle v w =>
+    simp only [eval, withVar]
+    split
+    · exact .none
+    · rename_i r hr; exact .fresh w _ _ (good_sees hg hr)
+  | intIndex v i =>
+    simp only [eval, withVar]
+    split
+    · exact .none
+    · split <;> exact .none
+  | getName v name =>
+    simp only [eval, withVar]
+    split
+    · exact .none
+    · split <;> exact .none
+  | setName v name vals =>
+    simp only [eval, withVar]
+    split
+    · exact .none
+    · split
+      · exact .none
+      · split
+        · exact .none
+        · exact .writes ..
+  | setSlice v lo hi srcLo =>
+    simp only [eval, withVar]
+    split
+    · exact .none
+    · exact hw ..
+  | setElems v lo hi w slo shi =>
+    simp only [eval, withVar]
+    split
+    · exact .none
+    · split
+      · exact .none
+      · exact hw ..
+  | del v =>
+    simp only [eval, withVar]
+    split
+    · exact .none
+    · exact .del v
+  | dump => exact .none
+
+theorem rowAt_append_old (h : Heap α) (recs : Buffer α) (b i : Nat) (hb : b < h.length) :
+    rowAt (h ++ [recs]) b i = rowAt h b i := by
+  simp [rowAt, List.getElem?_append_left hb]
+
+/-- the invariant holds initially and is preserved by every operation: it holds in every reachable state -/
+theorem good_step (s : State α) (op : Op α) (hg : Good s) : Good (step s op).1 := by
+  have hs := eval_gshape s hg op
+  simp only [step]
+  generalize (eval s op).1 = eff at hs
+  cases hs with
+  | none => exact hg
+  | view w v rv r hv hb ht hn hsub =>
+    intro x r' hx
+    simp only [apply, find_bind] at hx
+    split at hx
+    · cases hx
+      refine ⟨by rw [hb]; exact (hg v rv hv).1, hn, fun i hi => ?_⟩
+      simp only [apply]
+      rw [hb, ht]
+      exact (hg v rv hv).2.2 i (hsub i hi)
+    · exact hg x r' hx
+  | fresh w ty recs hrecs =>
+    intro x r' hx
+    simp only [apply, find_bind] at hx
+    simp only [apply, List.length_append, List.length_singleton]
+    split at hx
+    · cases hx
+      refine ⟨by simp, List.nodup_range, fun i hi => ?_⟩
+      simp only [List.mem_range] at hi
+      simp only [rowAt, List.getElem?_append_right (Nat.le_refl _), Nat.sub_self, List.getElem?_cons_zero,
+        Option.getD_some, List.getElem?_eq_getElem hi]
+      exact hrecs _ (List.getElem_mem hi)
+    · obtain ⟨h1, h2, h3⟩ := hg x r' hx
+      exact ⟨Nat.lt_succ_of_lt h1, h2, fun i hi => by rw [rowAt_append_old _ _ _ _ h1]; exact h3 i hi⟩
+  | writes b idx ws =>
+    intro x r' hx
+    obtain ⟨h1, h2, h3⟩ := hg x r' hx
+    exact ⟨by simpa [apply, writeCols_length] using h1, h2,
+      fun i hi => by simp only [apply]; rw [rowAt_writeCols_length]; exact h3 i hi⟩
+  | del v =>
+    intro x r' hx
+    simp only [apply, find_unbind] at hx
+    split at hx
+    · cases hx
+    · exact hg x r' hx
+
+theorem good_empty : Good (State.empty : State α) := by
+  intro x r h
+  simp [State.empty, find] at h
+
+theorem good_run (s : State α) (ops : List (Op α)) (hg : Good s) : Good (run s ops) := by
+  induction ops generalizing s with
+  | nil => exact hg
+  | cons op ops ih => rw [run_cons]; exact ih _ (good_step s op hg)
+
+/-- the read-back law in every REACHABLE state (any history from the empty state), for a full-length right-hand side:
+`v[name] = vals; v[name]` returns `vals`, and an alias `w` of `v` returns the corresponding positions of `vals` -/
+theorem c19h_setName_getName_reachable (hist : List (Op α)) (v name : String) (vals : List α) (rv : Ref) (p : Nat)
+    (hv : find v (run State.empty hist).env = some rv) (hp : pos (generic rv.ty.mom name) rv.ty.fields = some p)
+    (hl : vals.length = rv.idx.length) :
+    let s := run State.empty hist
+    (step (step s (.setName v name vals)).1 (.getName v name)).2 = .vals (vals.map some) ∧
+      ∀ w idx, Aliased s v w idx →
+        (step (step s (.setName v name vals)).1 (.getName w name)).2 = .vals (pick (vals.map some) idx) := by
+  have hg := good_run _ hist (good_empty (α := α))
+  obtain ⟨_, h2, h3⟩ := hg v rv hv
+  have hlt : p < rv.ty.fields.length := by
+    have : ∀ (fs : List String) (n : String) (p : Nat), pos n fs = some p → p < fs.length := by
+      intro fs n
+      induction fs with
+      | nil => intro p h; simp [pos] at h
+      | cons f fs ih =>
+        intro p h
+        simp only [pos] at h
+        split at h
+        · cases h; simp
+        · cases hq : pos n fs with
+          | none => simp [hq] at h
+          | some q => simp [hq] at h; subst h; simp [ih q hq]
+    exact this _ _ _ hp
+  have hrec : ∀ i ∈ rv.idx, p < (rowAt (run State.empty hist).heap rv.buf i).length := by
+    intro i hi; rw [h3 i hi]; exact hlt
+  exact ⟨(c19h_setName_getName _ v name vals rv p hv h2 hp hl hrec).2,
+    fun w idx hal => c19h_setName_getName_alias _ v w name idx vals rv p hal hv h2 hp hl hrec⟩
+
+/-! ### examples: a concrete 3-row Momentum3D array -/
+
+section Examples
+
+/-- `a = vector.array({"px": [1, 4, 7], "py": [2, 5, 8], "pz": [3, 6, 9]})` -/
+def exA : State Int := run State.empty [.new "a" ⟨true, ["x", "y", "z"]⟩ [[1, 2, 3], [4, 5, 6], [7, 8, 9]]]
+
+example : WF exA := wf_run _ _ wf_empty
+
+example : seen exA "a" = [[1, 2, 3], [4, 5, 6], [7, 8, 9]] := by decide
+
+/-- `b = a[1:]; b["px"] = [40, 70]` is seen through `a` (momentum spelling, write through the slice) -/
+example : seen (run exA [.slice "a" "b" (some 1) none none, .setName "b" "px" [40, 70]]) "a" =
+    [[1, 2, 3], [40, 5, 6], [70, 8, 9]] := by decide
+
+/-- `b = a[::-1]; a["y"] = [20, 50, 80]` is seen through `b`, reversed -/
+example : (step (run exA [.slice "a" "b" none none (some (-1)), .setName "a" "y" [20, 50, 80]]) (.getName "b" "py")).2 =
+    .vals [some 80, some 50, some 20] := rfl
+
+/-- `c = a.view(type(a)); c[0:1] = c[2:3]` is seen through `a` -/
+example : seen (run exA [.view "a" "c", .setSlice "c" 0 1 2]) "a" = [[7, 8, 9], [4, 5, 6], [7, 8, 9]] := by decide
+
+/-- `p = pickle.loads(pickle.dumps(a)); a["pz"] = [0, 0, 0]; p["x"] = [5, 5, 5]`: neither sees the other's write -/
+example :
+    let s := run exA [.pickle "a" "p", .setName "a" "pz" [0, 0, 0], .setName "p" "x" [5, 5, 5]]
+    seen s "a" = [[1, 2, 0], [4, 5, 0], [7, 8, 0]] ∧ seen s "p" = [[5, 2, 3], [5, 5, 6], [5, 8, 9]] := by decide
+
+/-- `m = a[[True, False, True]]`, `f = a[[-1, 0]]` are copies of the selected records -/
+example :
+    let s := run exA [.mask "a" "m" [true, false, true], .fancy "a" "f" [-1, 0], .setName "a" "x" [0]]
+    seen s "m" = [[1, 2, 3], [7, 8, 9]] ∧ seen s "f" = [[7, 8, 9], [1, 2, 3]] ∧
+      seen s "a" = [[0, 2, 3], [0, 5, 6], [0, 8, 9]] := by decide
+
+/-- `a[-1]` is a `MomentumObject3D` with the record's coordinates; `a[3]` an `IndexError`; `a["rho"]` a `ValueError` -/
+example : (step exA (.intIndex "a" (-1))).2 = .elem ⟨true, ["x", "y", "z"]⟩ [7, 8, 9] ∧
+    (⟨true, ["x", "y", "z"]⟩ : VTy).objTag = "MomentumObject3D" ∧ (⟨true, ["x", "y", "z"]⟩ : VTy).tag = "MomentumNumpy3D" ∧
+    (step exA (.intIndex "a" 3)).2 = .err .IndexError ∧ (step exA (.getName "a" "rho")).2 = .err .ValueError :=
+  ⟨rfl, by decide, by decide, rfl, rfl⟩
+
+/-- the theorems at work: after `b = a[1:]`, in every later state not rebinding `a` / `b`, `b` shows rows 1, 2 of `a` -/
+example (ops : List (Op Int)) (hops : ∀ op ∈ ops, op.target ≠ some "a" ∧ op.target ≠ some "b") :
+    let s' := run (step exA (.slice "a" "b" (some 1) none none)).1 ops
+    seen s' "b" = pick (seen s' "a") [1, 2] :=
+  ((c19h_view_alias exA "a" "b" ⟨0, [0, 1, 2], ⟨true, ["x", "y", "z"]⟩⟩ (by decide) rfl ops hops).2
+    (some 1) none none [1, 2] (by decide)).1
+
+/-- the read-back law applies to `exA`: no repeated rows, every record has the field -/
+example : (step (step exA (.setName "a" "py" [20, 50, 80])).1 (.getName "a" "y")).2 = .vals [some 20, some 50, some 80] :=
+  (c19h_setName_getName exA "a" "py" [20, 50, 80] ⟨0, [0, 1, 2], ⟨true, ["x", "y", "z"]⟩⟩ 1 rfl (by decide) (by decide) rfl
+    (by decide)).2
+
+/-- **Discrepancy with C16 (failure atomicity), reproduced on the real library.**  `a[:] = b[:]` where `b` has a field `a`
+lacks (`theta` vs `z`) raises `ValueError` — after `x` and `y` of `a` have been overwritten. -/
+theorem c19h_setElems_partial :
+    let s : State Int := run State.empty [.new "a" ⟨false, ["x", "y", "z"]⟩ [[1, 2, 3], [4, 5, 6]],
+      .new "b" ⟨false, ["x", "y", "theta"]⟩ [[7, 8, 9], [10, 11, 12]]]
+    (step s (.setElems "a" none none "b" none none)).2 = .err .ValueError ∧
+      seen s "a" = [[1, 2, 3], [4, 5, 6]] ∧
+      seen (step s (.setElems "a" none none "b" none none)).1 "a" = [[7, 8, 3], [10, 11, 6]] :=
+  ⟨rfl, by decide, by decide⟩
+
+/-- … and an assignment from a LOWER-dimensional array silently succeeds, overwriting only the fields the source has -/
+theorem c19h_setElems_lower_dim :
+    let s : State Int := run State.empty [.new "a" ⟨false, ["x", "y", "z"]⟩ [[1, 2, 3], [4, 5, 6]],
+      .new "b" ⟨false, ["x", "y"]⟩ [[7, 8], [10, 11]]]
+    (step s (.setElems "a" none none "b" none none)).2 = .ok ∧
+      seen (step s (.setElems "a" none none "b" none none)).1 "a" = [[7, 8, 3], [10, 11, 6]] :=
+  ⟨rfl, by decide⟩
+
+end Examples
+
 end VH
